@@ -7,6 +7,7 @@ require (
 	github.com/gin-gonic/gin v1.10.0
 	github.com/gorilla/websocket v1.5.3
 	github.com/mattn/go-sqlite3 v1.14.23
+	github.com/zclconf/go-cty v1.15.0
 	golang.org/x/crypto v0.27.0
 )
 
@@ -31,7 +32,6 @@ require (
 	github.com/pelletier/go-toml/v2 v2.2.3 // indirect
 	github.com/rivo/uniseg v0.4.7 // indirect
 	github.com/ugorji/go/codec v1.2.12 // indirect
-	github.com/zclconf/go-cty v1.15.0 // indirect
 	golang.org/x/image v0.20.0 // indirect
 	golang.org/x/net v0.29.0 // indirect
 	golang.org/x/sys v0.25.0 // indirect
